@@ -545,6 +545,20 @@ class SFileEntry(Entry):
         out["text"] = text
         out["file"] = open(fname, "rb").read().hex() if os.path.exists(fname) else ""
         out["input_unchanged"] = (data.tobytes() == orig)
+        if head is not None:
+            # the dict the real _make_header built, in dict order, values as ids (Exec.v_mkheader)
+            uorder = list(hdr or {})
+            pairs = []
+            for k, v in head.items():
+                if k == "_DTYPE":
+                    pairs.append([k, -2 if v == data.dtype.descr else 0])
+                elif k == "_VERSION":
+                    pairs.append([k, -1 if v == "1.0" else 0])
+                elif isinstance(k, str) and k in uorder and v == hdr[k]:
+                    pairs.append([k, uorder.index(k) + 1])
+                else:
+                    pairs.append([str(k), 0])
+            out["made_header"] = {"ukeys_order": uorder, "pairs": pairs}
         if text is not None:
             out["monitor"] = monitor(text, head, data.dtype)
             self.nmonitored += 1
@@ -613,7 +627,13 @@ class SFileEntry(Entry):
         else:
             cout = "(Err %s)" % rd[1]
         ukeys = "[" + "; ".join(cbytes(k.encode()) for k in out["ukeys"]) + "]"
-        return "%s v_sfile d %s rows %s %s %s %s %s" % (" ".join(lets), cdtype(c["dtype"]), ukeys, cfile, cscan, cev, cout)
+        main = "v_sfile d %s rows %s %s %s %s %s" % (cdtype(c["dtype"]), ukeys, cfile, cscan, cev, cout)
+        mh = out.get("made_header")
+        if mh is not None:
+            main = "Z.lor (%s) (v_mkheader [%s] [%s])" % (
+                main, "; ".join(cbytes(k.encode()) for k in mh["ukeys_order"]),
+                "; ".join("(%s, %s)" % (cbytes(k.encode()), cz(v)) for k, v in mh["pairs"]))
+        return "%s %s" % (" ".join(lets), main)
 
     def nontrivial(self, c, out):
         if c.get("adv"):
